@@ -76,12 +76,16 @@ run_until(br_sslio_context *ctx, unsigned target)
 				 * still send something, then we have our
 				 * own response close_notify to send, and
 				 * the peer is allowed by RFC 5246 not to
-				 * wait for it.
+				 * wait for it. The connection is then over,
+				 * without error; the engine must still be
+				 * terminated, since nothing more can be
+				 * sent or received (otherwise a caller
+				 * such as br_sslio_close() would loop on
+				 * it forever).
 				 */
-				if (!ctx->engine->shutdown_recv) {
-					br_ssl_engine_fail(
-						ctx->engine, BR_ERR_IO);
-				}
+				br_ssl_engine_fail(ctx->engine,
+					ctx->engine->shutdown_recv
+					? BR_ERR_OK : BR_ERR_IO);
 				return -1;
 			}
 			if (wlen > 0) {
